@@ -20,7 +20,7 @@ MANIFEST_INFO = {
     "engine": "E",
     "design_ref": "DESIGN.md section 5, C16",
     "technique": "bounded-exhaustive enumeration of texts x charsets x every way of cutting the encoded bytes into chunks (incl. empty chunks), of byte strings x chunk sizes x seek offsets/origins x buffer_now on an instrumented stream whose short reads are chooser choice points, of content pairs for equality, and of content types over a token alphabet for the repr/parse round trip; reference = join / bytes.decode / slicing",
-    "level_text": "All texts up to length 3 (quick) / 4 (thorough) over {a, e-acute, euro sign, U+1F600, NUL, combining acute} in utf8, utf-16, latin-1 and undeclared charset with every composition of the encoded bytes (all cuts for <= 8 (12) bytes, <= 3 cuts beyond; plus unterminated UTF-7 runs and truncated sequences) and an empty chunk at every position; every byte string of length <= 6 (7) over {00, 61, ff} x every chunk size x 7 seek offsets x both origins x buffer_now x every pattern of <= 2 short reads; all pairs of 40 contents for equality; every content type over a token alphabet with <= 2 parameters for the MIME round trip; detail snapshots vs later source changes.",
+    "level_text": "All texts up to length 3 (quick) / 4 (thorough) over {a, e-acute, euro sign, U+1F600, NUL, combining acute} in utf8, utf-16, latin-1 and undeclared charset with every composition of the encoded bytes (all cuts for <= 8 (12) bytes, <= 3 cuts beyond; plus unterminated UTF-7 runs and truncated sequences) and an empty chunk at every position; every byte string of length <= 6 (7) over {00, 61, ff} x every chunk size x 7 seek offsets x both origins x buffer_now (and, for a given offset, the stream position moved by someone else between iter_bytes() and the first chunk) x every pattern of <= 2 short reads; all pairs of 40 contents for equality; every content type over a token alphabet with <= 2 parameters for the MIME round trip; detail snapshots vs later source changes.",
     "level_note": "Finite scope stands in for 'all Unicode texts / all byte strings' (one representative per UTF-8 length class, NUL, a combining mark). Content-type parameter names are lower-case tokens and values contain no quote, backslash or non-ASCII characters (charset values no comma): outside this envelope the stdlib header parser legitimately normalises.",
 }
 
@@ -195,6 +195,9 @@ def stream_cases(tier):
                         continue
                     for buffer_now in (False, True):
                         yield data, chunk_size, so, sw, buffer_now
+                    if so is not None and n:
+                        # somebody else moves the stream between iter_bytes() and the first chunk
+                        yield data, chunk_size, so, sw, "disturbed"
 
 
 def expected_slice(data, so, sw):
@@ -207,12 +210,19 @@ def expected_slice(data, so, sw):
 
 def run_stream_case(case, chooser):
     data, chunk_size, so, sw, buffer_now = case
+    disturbed = buffer_now == "disturbed"
+    if disturbed:
+        buffer_now = False
     log = []
     stream = Instrumented(data, chooser, log)
     problems = []
     content = C.content_from_stream(stream, ContentType("application", "octet-stream"), chunk_size, buffer_now, so, sw)
     after_ctor = len(log)
-    chunks = list(content.iter_bytes())
+    it = content.iter_bytes()
+    if disturbed:
+        # (another detail over the same stream was drained meanwhile, or a writer appended)
+        stream.pos = len(data) if stream.pos != len(data) else 0
+    chunks = list(it)
     after_iter = len(log)
     want = expected_slice(data, so, sw)
     if b"".join(chunks) != want:
@@ -347,7 +357,7 @@ def check_equality(res):
 TOKENS_TYPE = ("text", "application", "x-t.a+b")
 TOKENS_SUB = ("plain", "x-traceback", "vnd.a+json", "octet-stream")
 PNAMES = ("charset", "language", "k", "x-p")
-PVALUES = ("a", "utf8", "a b", "a;b", "a=b", "a/b", "it's", "a,b", "", "x" * 40)
+PVALUES = ("a", "utf8", "a b", "a;b", "a=b", "a/b", "it's", "a,b", "", "x" * 40, " ", "> ", "\t", " a")
 
 
 def check_content_types(res, tier):
